@@ -184,6 +184,10 @@ func (g *G) planCreate(stream string, id string, poolSize int, kind Item, varian
 	if strings.HasPrefix(stream, "collide") && n < 2 {
 		n = 2 + g.r.Intn(poolSize-1)
 	}
+	between := strings.HasPrefix(stream, "collide") && (variant == 2 || variant == 4) // needs a plugin in between
+	if between && n < 3 {
+		n = 3 + g.r.Intn(poolSize-2)
+	}
 	c := &Case{Kind: "create", Stream: stream, Container: g.container(id, stream == "removal"), Plugins: g.subset(poolSize, n)}
 	g.echoC, g.echoRes = c.Container, c.Container.Res
 	p := newPlanner(g, n)
@@ -195,6 +199,10 @@ func (g *G) planCreate(stream string, id string, poolSize int, kind Item, varian
 		p.dealDisjoint(true, targets, 3)
 		j := 1 + g.r.Intn(n-1)
 		i := g.r.Intn(j)
+		if between {
+			j = 2 + g.r.Intn(n-2)
+			i = g.r.Intn(j - 1)
+		}
 		via := ""
 		if updatable(kind) && g.r.Intn(2) == 0 {
 			via = targets[g.r.Intn(2)]
@@ -356,7 +364,7 @@ func driveAdapt(c *hx.Ctx) error {
 	}
 	per := c.Pick(8, 120)
 	for _, kind := range collisionKinds() {
-		for v := 0; v < 4; v++ {
+		for v := 0; v < 5; v++ {
 			if v > 0 && !markable[kind.Kind] {
 				continue
 			}
@@ -467,7 +475,7 @@ func driveAdapt(c *hx.Ctx) error {
 			c.HarnessError("collision stream for %v produced no conflict (%q)", kind, want)
 		}
 	}
-	c.Stats.Rule = "adapt: requests against a real Adaptation with 6 scripted stub plugins per pool (two pools: ascending indices; random indices registered in random order), 8 concurrent callers; streams: per-item-kind collisions (plain / remove-then-set / lone removal in between / set-before-marker; via adjustment or via updates of a third party), disjoint writers, removals of original items, mixed random, self-update, ignore-failure, update requests with pre-populated resources, stop requests; a case is non-trivial when some plugin answers with an adjustment or update; distinct by full input"
+	c.Stats.Rule = "adapt: requests against a real Adaptation with 6 scripted stub plugins per pool (two pools: ascending indices; random indices registered in random order), 8 concurrent callers; streams: per-item-kind collisions (plain / remove-then-set / lone removal in between / set-before-marker / take-over by a plugin in between then plain set; echo values equal to the current value and explicit zeros; via adjustment or via updates of a third party), disjoint writers, removals of original items, mixed random, self-update, ignore-failure, update requests with pre-populated resources, stop requests; a case is non-trivial when some plugin answers with an adjustment or update; distinct by full input"
 	return nil
 }
 
